@@ -416,11 +416,16 @@ func BindCase(c *ExifCase, rng *rand.Rand) (map[int]*Bound, error) {
 	bulkID := uint16(0xc000)
 	// a class with a single candidate tag keeps it: other classes of the record that could also use the id leave it alone
 	reserved := map[string]int{}
+	demand := map[string]int{} // tag -> number of entries of this record whose class could be bound to it
 	for _, dir := range []string{"IFD0", "Exif", "GPS"} {
 		for _, e := range c.Dirs[dir] {
 			ck, _ := classKey(e.Cls)
-			if specs := catalog[dir][ck]; len(specs) == 1 {
+			specs := catalog[dir][ck]
+			if len(specs) == 1 {
 				reserved[fmt.Sprintf("%s/%04x", dir, specs[0].id)] = e.Key
+			}
+			for _, s := range specs {
+				demand[fmt.Sprintf("%s/%04x", dir, s.id)]++
 			}
 		}
 	}
@@ -469,14 +474,29 @@ func BindCase(c *ExifCase, rng *rand.Rand) (map[int]*Bound, error) {
 					}
 				}
 			}
-			for try := 0; try < 50 && pick == nil; try++ {
-				s := &specs[rng.Intn(len(specs))]
-				k := fmt.Sprintf("%s/%04x", dir, s.id)
-				if owner, ok := reserved[k]; used[k] || (ok && owner != e.Key) {
-					continue
+			if pick == nil {
+				// among the free candidates take one that the fewest other entries of this record could also use
+				// (classes share tags: StripOffsets may be written as LONG, as two SHORTs or as two LONGs)
+				var free []*tagSpec
+				best := 1 << 30
+				for si := range specs {
+					s := &specs[si]
+					k := fmt.Sprintf("%s/%04x", dir, s.id)
+					if owner, ok := reserved[k]; used[k] || (ok && owner != e.Key) {
+						continue
+					}
+					d := demand[k]
+					if d < best {
+						best, free = d, free[:0]
+					}
+					if d == best {
+						free = append(free, s)
+					}
 				}
-				pick = s
-				used[k] = true
+				if len(free) > 0 {
+					pick = free[rng.Intn(len(free))]
+					used[fmt.Sprintf("%s/%04x", dir, pick.id)] = true
+				}
 			}
 			if pick == nil {
 				return nil, fmt.Errorf("catalog exhausted for %s/%s", dir, e.Cls)
